@@ -37,6 +37,57 @@ def _run(cmd, timeout, mem_gb, log, cwd=None):
     return p
 
 
+class _P:
+    def __init__(self, rc, out, err):
+        self.returncode, self.stdout, self.stderr = rc, out, err
+
+
+def _race(cmds, timeout, mem_gb, res):
+    """Run the command lines concurrently, return the first that finishes with a cbmc result; kill the others.
+    minisat2 wins on pointer-heavy units, cadical on arithmetic/floating-point ones (DoubleHist_Aggregate: > 900 s vs 3 s)."""
+    import tempfile
+    t0 = time.time()
+    procs = []
+    for cmd in cmds:
+        fo = tempfile.TemporaryFile(mode="w+")
+        fe = tempfile.TemporaryFile(mode="w+")
+        procs.append((cmd, subprocess.Popen(cmd, stdout=fo, stderr=fe, text=True, preexec_fn=_limits(mem_gb)), fo, fe))
+    winner = None
+    try:
+        while time.time() - t0 < timeout:
+            alive = 0
+            for cmd, pr, fo, fe in procs:
+                rc = pr.poll()
+                if rc is None:
+                    alive += 1
+                    continue
+                fo.seek(0)
+                out = fo.read()
+                if '"result"' in out or "too many addressed objects" in out:
+                    fe.seek(0)
+                    winner = (cmd, _P(rc, out, fe.read()))
+                    break
+            if winner or alive == 0:
+                break
+            time.sleep(0.2)
+    finally:
+        for cmd, pr, fo, fe in procs:
+            if pr.poll() is None:
+                pr.kill()
+                pr.wait()
+    if winner is None:
+        # all finished without a result, or timeout
+        if time.time() - t0 >= timeout:
+            res.cmds.append({"cmd": " || ".join(" ".join(c) for c in cmds), "timeout_s": timeout})
+            raise Undecided("timeout after %ds (portfolio): %s" % (timeout, " ".join(cmds[0][:3])))
+        cmd, pr, fo, fe = procs[0]
+        fo.seek(0); fe.seek(0)
+        winner = (cmd, _P(pr.returncode, fo.read(), fe.read()))
+    res.cmds.append({"cmd": " ".join(winner[0]), "rc": winner[1].returncode, "s": round(time.time() - t0, 2), "raced_against": len(cmds) - 1})
+    res.backend = "SAT portfolio, answered by " + ("cadical" if "cadical" in winner[0] else "minisat2")
+    return winner[1]
+
+
 class Result:
     def __init__(self):
         self.props = []        # [{name, description, status, file, line, function}]
@@ -115,7 +166,7 @@ def prove(workdir, name, c_text, entry, enforce=None, replace=(), loop_contracts
         cb.append("--z3")
     elif solver == "cadical":
         cb += ["--sat-solver", "cadical"]
-    res.backend = {"sat": "SAT (minisat2, CBMC built-in)", "cvc5": "SMT2 (cvc5)", "z3": "SMT2 (z3)", "cadical": "SAT (cadical)"}[solver]
+    res.backend = {"portfolio": "SAT portfolio (minisat2 and cadical raced, first answer taken)", "sat": "SAT (minisat2, CBMC built-in)", "cvc5": "SMT2 (cvc5)", "z3": "SMT2 (z3)", "cadical": "SAT (cadical)"}[solver]
     if unwind is not None:
         cb += ["--unwind", str(unwind), "--unwinding-assertions"]
     for u in unwindset:
@@ -127,7 +178,10 @@ def prove(workdir, name, c_text, entry, enforce=None, replace=(), loop_contracts
     # the default 8 object bits are much faster than 12 (SplitString: 36 s vs > 300 s); widen only on demand
     for ob in ([object_bits] if object_bits else [None, 10, 12, 16]):
         cmdl = cb + (["--object-bits", str(ob)] if ob else []) + [c]
-        p = _run(cmdl, timeout, mem_gb, res.cmds)
+        if solver == "portfolio":
+            p = _race([cmdl, cmdl[:1] + ["--sat-solver", "cadical"] + cmdl[1:]], timeout, mem_gb, res)
+        else:
+            p = _run(cmdl, timeout, mem_gb, res.cmds)
         if "too many addressed objects" in p.stdout and not object_bits:
             continue
         break
